@@ -119,6 +119,7 @@ pub struct StageStats {
     pub exhaustive: bool,
     pub rule: String,
     pub shrink_runs: u64,
+    pub slow_cases: Vec<String>,
 }
 
 impl StageStats {
@@ -147,6 +148,11 @@ impl StageStats {
             }
         }
         self.shrink_runs += o.shrink_runs;
+        for s in o.slow_cases {
+            if self.slow_cases.len() < 5 {
+                self.slow_cases.push(s);
+            }
+        }
         if self.failure.is_none() {
             self.failure = o.failure;
         }
@@ -249,7 +255,12 @@ struct ShardCtx<'a, C> {
 impl<'a, C: Clone + Send + Debug + Serialize + 'static> ShardCtx<'a, C> {
     /// returns Some(message) if the case fails (violation)
     fn eval(&mut self, case: &C, counting: bool) -> Option<String> {
+        let t0 = Instant::now();
         let out = exec_case(case, self.stage.run, self.stage.case_timeout_s);
+        let dt = t0.elapsed().as_secs_f64();
+        if dt > 10.0 && self.stats.slow_cases.len() < 3 {
+            self.stats.slow_cases.push(format!("{:.0}s: {}", dt, (self.stage.render)(case)));
+        }
         match out {
             CaseOutcome::Pass(obs) => {
                 if counting {
